@@ -877,12 +877,23 @@ pub(super) fn translate_ident_part(ident: String, ctx: &Context) -> sql_ast::Ide
             if is_bare && !keywords::is_keyword(&ident, &ctx.dialect_enum) {
                 sql_ast::Ident::new(ident)
             } else {
-                sql_ast::Ident::with_quote(ctx.dialect.ident_quote(), ident)
+                quoted_ident(ctx.dialect.ident_quote(), ident)
             }
         }
-        IdentQuotingStyle::AlwaysQuoted => {
-            sql_ast::Ident::with_quote(ctx.dialect.ident_quote(), ident)
-        }
+        IdentQuotingStyle::AlwaysQuoted => quoted_ident(ctx.dialect.ident_quote(), ident),
+    }
+}
+
+/// A quoted identifier. sqlparser displays a quoted identifier without knowing whether
+/// its quotes are already escaped and leaves a doubled quote alone, so a name that
+/// contains two adjacent quote characters would refer to another object. The name is a
+/// plain value here: a name with a quote in it is escaped here and emitted verbatim.
+fn quoted_ident(quote: char, ident: String) -> sql_ast::Ident {
+    if ident.contains(quote) {
+        let q = quote.to_string();
+        sql_ast::Ident::new(format!("{q}{}{q}", ident.replace(quote, &format!("{q}{q}"))))
+    } else {
+        sql_ast::Ident::with_quote(quote, ident)
     }
 }
 
